@@ -46,6 +46,10 @@ func compID(class string, n int) (attr string, plain string) {
 	case "long":
 		p := strings.Repeat("0123456789abcdef", 20) + strconv.Itoa(n)
 		return p, p
+	case "ctrl":
+		// TAB, LF and CR written as character references are part of the value (XML 1.0 3.3.3 exempts references from
+		// attribute-value normalisation), and so are leading / trailing / doubled spaces
+		return "a&#x9;b&#xA;c&#xD;d  e " + strconv.Itoa(n) + " ", "a\tb\nc\rd  e " + strconv.Itoa(n) + " "
 	}
 	return "", ""
 }
